@@ -9,6 +9,7 @@ import XalanModel.Containers.PListClearProofs
 import XalanModel.Containers.PListAllocProofs
 import XalanModel.Containers.PListHistoryProofs
 import XalanModel.Containers.PListSpliceProofs
+import XalanModel.Containers.PListMoveProofs
 import XalanModel.Containers.DOMStringProofs
 import XalanModel.Containers.DOMStringCompareProofs
 import XalanModel.Containers.ObjCacheProofs
@@ -837,6 +838,24 @@ example : ((PL.prun ({} : PHeap Int) {}
      .insertAt 2 6, .popFront, .eraseAt 1]).map
       fun r => PL.toList r.1 r.2) = some [5] := by
   decide
+
+/-- **splice(pos, *this, it) inside a history**: in any state reached by `plist_history` (`PL.Rep`), moving the
+element at distance `sidx` from `begin()` in front of the position at distance `pidx` (`pidx = size()`: `end()`)
+through the executable pointer code (`PL.pmove`, the function `Driver/C20.lean` executes for a `splice` request whose
+source is the destination list) succeeds, yields the `std::list::splice` result (`PL.specMove`; `none` for an
+iterator outside the list), and `PL.Rep` holds again — so this step can be interleaved with the calls of
+`plist_history` in any order.  `pos == it` (the early return of the C++) is a case of the proof. -/
+theorem plist_move_refines (h : PHeap α) (l : PL) (s s' : List α) (pidx sidx : Nat) (r : PL.Rep h l s)
+    (hs : PL.specMove s pidx sidx = some s') :
+    ∃ h', PL.pmove h l pidx sidx = some (h', l) ∧ PL.Rep h' l s' ∧ PL.toList h' l = s' := by
+  obtain ⟨h', hp, r'⟩ := PL.pmove_refines h l s s' pidx sidx r hs
+  exact ⟨h', hp, r', PL.rep_toList r'⟩
+
+/-- non-vacuity: contract and pointer code on a reached state (ring 10,20,30 built by three `push_back`s) -/
+example : PL.specMove [10, 20, 30] 0 2 = some [30, 10, 20] ∧ PL.specMove [10, 20, 30] 3 0 = some [20, 30, 10] ∧
+    PL.specMove [10, 20, 30] 1 1 = some [10, 20, 30] ∧ PL.specMove [10, 20, 30] 2 1 = some [10, 20, 30] := by decide
+example : ((PL.prun ({} : PHeap Int) {} [.pushBack 10, .pushBack 20, .pushBack 30]).bind fun r =>
+    (PL.pmove r.1 r.2 3 0).map fun q => PL.toList q.1 q.2) = some [20, 30, 10] := by decide
 
 /-! ## XalanDOMString -/
 
